@@ -22,10 +22,12 @@ import ctypes
 import enum
 import errno
 import itertools
+import json
 import os
 import re
 import resource as real_resource
 import subprocess
+import sys
 
 from harness.common import extract
 from harness.common.extract import NotRecognised
@@ -1464,7 +1466,9 @@ def judge(ctx, res, hist, i, impl, m, live=False):
                 res.known_seen[fid] = res.known_seen.get(fid, 0) + 1
             res.disagree("spec", inp, impl, model, spec,
                          note="op %d: implementation differs from what the property promises" % i, finding=fid)
-            return False
+            if fid is None:
+                return False
+            # inside the region of a known finding the model predicted exactly this outcome and state: the history goes on
     else:
         res.count("spec:unconstrained")
     if impl != model:
@@ -1929,6 +1933,298 @@ def run_live(ctx, res, live, env, T, S, ops, tag, block, stat_cpus=None):
 
 
 
+# ------------------------------------------------------------------------------ live: an unprivileged caller
+#
+# Round 3. The harness runs as root, so no system call of the set forms is ever refused for lack of privilege and the
+# failure tests of the native setters (`retval == -1` → PyErr_SetFromErrno) would never run. Here a forked copy of this
+# process drops to an unprivileged uid and makes the calls on ITSELF (its own process: lowering the nice value → EACCES,
+# realtime I/O class → EPERM) and on a child of root (another user's process: every set form and prlimit → EPERM). The
+# privileged parent reads the kernel's state back after every call. The model runs with cap = cap_nice = false and the
+# root-owned target marked `foreign`.
+
+UNPRIV_UID = 65534
+
+
+def set_shows_value(req, st):
+    """Statement: 'after a successful set with any valid value the kernel itself reports exactly that value'. For a set
+    form that RETURNED (no exception): does the kernel state `st` of the target show the value? None = not a set form
+    with a value the statement speaks about."""
+    k = req["kind"]
+    if k == "nice" and isinstance(req.get("value"), int) and -20 <= req["value"] <= 19:
+        return st["nice"] == req["value"]
+    if k == "ionice" and req.get("ioclass") in (0, 1, 2, 3):
+        v = req.get("value") or 0
+        if 0 <= v <= 7 and (req["ioclass"] in (1, 2) or v == 0):
+            return st["ioprio"] == (req["ioclass"] << 13) | v
+    if k == "cpu_affinity" and req.get("cpus") and all(isinstance(c, int) and c in st["cpuset"] for c in req["cpus"]):
+        return st["affinity"] == sorted(set(req["cpus"]))
+    return None
+
+
+def live_unpriv(ctx, res, live, env, T):
+    ps = ctx.psutil
+    if os.geteuid() != 0:
+        res.notes.append("live-unpriv skipped: the harness is not root, cannot drop privileges in a forked child")
+        return 0
+    import warnings
+    c2p_r, c2p_w = os.pipe()
+    p2c_r, p2c_w = os.pipe()
+    with warnings.catch_warnings():
+        warnings.simplefilter("ignore")
+        child = os.fork()
+    if child == 0:
+        code = 0
+        try:
+            os.close(c2p_r)
+            os.close(p2c_w)
+            os.setgroups([])
+            os.setgid(UNPRIV_UID)
+            os.setuid(UNPRIV_UID)
+            out, inp = os.fdopen(c2p_w, "w"), os.fdopen(p2c_r)
+            out.write(json.dumps({"ready": os.getpid(), "uid": os.geteuid()}) + "\n")
+            out.flush()
+            for line in inp:
+                o = json.loads(line)
+                if o.get("quit"):
+                    break
+                if o.get("rlimits"):
+                    # its own limits, read with the resource module (root without CAP_SYS_RESOURCE may not read them)
+                    out.write(json.dumps([[x % U64 for x in real_resource.getrlimit(r)] for r in range(16)]) + "\n")
+                    out.flush()
+                    continue
+                try:
+                    proc = ps.Process(o["pid"])
+                    poison_errno()
+                    r = canon_ok(ps, o["req"], call_in_mode(ps, proc, o["req"], o.get("mode", "plain")))
+                except BaseException as e:  # noqa: BLE001
+                    r = canon_exc(ps, e)
+                out.write(json.dumps(r) + "\n")
+                out.flush()
+        except BaseException:  # noqa: BLE001
+            code = 1
+        finally:
+            os._exit(code)
+    os.close(c2p_w)
+    os.close(p2c_r)
+    rd, wr = os.fdopen(c2p_r), os.fdopen(p2c_w, "w")
+    done = 0
+    try:
+        hello = json.loads(rd.readline() or "{}")
+        if hello.get("ready") != child or hello.get("uid") != UNPRIV_UID:
+            res.notes.append("live-unpriv skipped: the forked child could not drop privileges (%r)" % hello)
+            return 0
+        C, E = child, env["eligible"]
+
+        def state():
+            wr.write(json.dumps({"rlimits": True}) + "\n")
+            wr.flush()
+            own = {"pid": C, "nice": os.getpriority(os.PRIO_PROCESS, C), "ioprio": raw_ioprio_get(C),
+                   "affinity": sorted(os.sched_getaffinity(C)), "cpuset": list(E), "rlimits": json.loads(rd.readline()),
+                   "foreign": False}
+            return [own, dict(live.os_state(T, E), foreign=True)]
+        st0 = state()
+        nC, nT = st0[0]["nice"], st0[1]["nice"]
+        ops = [
+            # its own process: reading needs nothing; raising the nice value is allowed, lowering it is not (EACCES)
+            op(C, R_nice()), op(C, R_nice(min(19, nC + 2))), op(C, R_nice()), op(C, R_nice(max(-20, nC - 3))), op(C, R_nice()),
+            op(C, R_nice(-20)), op(C, R_nice()),
+            # realtime I/O class needs CAP_SYS_NICE (EPERM), best-effort / idle do not
+            op(C, R_ionice(1, 2)), op(C, R_ionice()), op(C, R_ionice(2, 3)), op(C, R_ionice()),
+            op(C, F(R_ionice(1), ioclass_form="enum")), op(C, R_ionice(3)), op(C, R_ionice()),
+            op(C, R_aff(E[:1])), op(C, R_aff()), op(C, R_aff([])), op(C, R_aff()),
+            op(C, R_rl(7)), op(C, R_rl(7, (16, 32))), op(C, R_rl(7)), op(C, R_rl(7, (16, 64))), op(C, R_rl(7)),
+            # another user's process: every get form but rlimit works, every set form is refused (EPERM)
+            op(T, R_nice()), op(T, R_ionice()), op(T, R_aff()), op(T, R_rl(7)),
+            op(T, R_nice(min(19, nT + 1))), op(T, R_nice()), op(T, R_nice(max(-20, nT - 1))), op(T, R_nice(2**31)),
+            op(T, R_ionice(2, 4)), op(T, R_ionice()), op(T, R_ionice(3)), op(T, R_ionice(2, 9)), op(T, R_ionice(None, 1)),
+            op(T, R_aff(E[:1])), op(T, R_aff()), op(T, R_aff([])), op(T, R_aff()), op(T, R_aff([env["ncpu"]])), op(T, R_aff([-1])),
+            op(T, F(R_aff(E[-1:]), cpus_form="tuple")), op(T, R_aff()),
+            op(T, R_rl(7, (16, 32))), op(T, R_rl(7, (1,))), op(T, R_rl(16)),
+        ]
+        modes = ["plain", "oneshot", "oneshot-warm", "second"]
+        ops = [dict(o, mode=ctx.rng.choice(modes)) for o in ops]
+        world = {"self": C, "ncpu": env["ncpu"], "nr_open": env["nr_open"], "cap": False, "cap_nice": False, "procs": st0}
+        hist = {"world": world, "ops": ops, "mode": "live", "tag": "live-unpriv"}
+        lines = [dict(world, op="reset")] + [{"op": "call", "pid": o["pid"], "req": driver_req(o["req"]), "errno": POISON_ERRNO}
+                                             for o in ops]
+        outs = ctx.driver().batch(lines)[1:]
+        for i, (o, m) in enumerate(zip(ops, outs)):
+            if "bad" in m:
+                raise RuntimeError("driver rejected %r: %s" % (o, m))
+            wr.write(json.dumps(o) + "\n")
+            wr.flush()
+            line = rd.readline()
+            if not line:
+                res.disagree("model", {"world": world, "ops": ops[:i + 1], "mode": "live", "source": "live-unpriv"},
+                             {"kind": "child-died"}, m["model"], m["spec"], note="the unprivileged child died")
+                break
+            out = json.loads(line)
+            im = {"out": out, "procs": [{k: v for k, v in p.items() if k != "foreign"} for p in state()]}
+            res.count("family:live-unpriv")
+            res.count("live:" + o["req"]["kind"])
+            res.count("mode:live:" + mode_for(o["req"], o["mode"]))
+            if out.get("exc") == "AccessDenied":
+                res.count("live:unpriv:AccessDenied:%s:%s" % (o["req"]["kind"], "own-process" if o["pid"] == C else "foreign-process"))
+            res.case(("live-unpriv", i, json.dumps(o, sort_keys=True)), nontrivial=not is_get(o["req"]))
+            done += 1
+            shown = set_shows_value(o["req"], im["procs"][0 if o["pid"] == C else 1]) if out == {"kind": "ok", "value": None} \
+                and not is_get(o["req"]) else None
+            if shown is False:
+                res.disagree("spec", {"world": world, "ops": ops[:i + 1], "mode": "live", "source": "live-unpriv"}, im,
+                             {k: v for k, v in m["model"].items() if k != "log"}, None,
+                             note="op %d: the set form returned normally (a successful set) but the kernel does not report "
+                                  "the value for that process — a refused system call went unnoticed" % i)
+                break
+            if not judge(ctx, res, hist, i, im, m, live=True):
+                break
+    finally:
+        try:
+            wr.write(json.dumps({"quit": True}) + "\n")
+            wr.flush()
+        except Exception:  # noqa: BLE001
+            pass
+        for f in (rd, wr):
+            try:
+                f.close()
+            except Exception:  # noqa: BLE001
+                pass
+        try:
+            os.kill(child, 9)
+        except OSError:
+            pass
+        try:
+            os.waitpid(child, 0)
+        except OSError:
+            pass
+    return done
+
+
+# ------------------------------------------------------------------------------ live: a kernel with many CPU ids
+#
+# Round 3. `psutil_proc_cpu_affinity_get` sizes its mask in a loop: sched_getaffinity(2) answers EINVAL while the mask
+# is smaller than the kernel's (nr_cpu_ids bits). On this host the first mask (64 CPUs) is large enough, so the growth
+# branch would never run. A preloaded shim makes `sched_getaffinity` refuse masks shorter than a pretended nr_cpu_ids
+# (exactly what the kernel does), in a fresh interpreter that imports the snapshot's psutil; the model runs on a world
+# with that many possible CPU ids.
+
+SHIM_C = r"""
+#define _GNU_SOURCE
+#include <sched.h>
+#include <errno.h>
+#include <stdio.h>
+#include <stdlib.h>
+#include <string.h>
+#include <unistd.h>
+#include <sys/syscall.h>
+int sched_getaffinity(pid_t pid, size_t cpusetsize, cpu_set_t *mask) {
+    const char *e = getenv("C18_FAKE_NR_CPU_IDS");
+    const char *lg = getenv("C18_SHIM_LOG");
+    long nr = e ? atol(e) : 0;
+    if (lg) { FILE *f = fopen(lg, "a"); if (f) { fprintf(f, "%zu\n", cpusetsize); fclose(f); } }
+    if (nr > 0 && cpusetsize * 8 < (size_t) nr) { errno = EINVAL; return -1; }
+    long r = syscall(SYS_sched_getaffinity, pid, cpusetsize, mask);
+    if (r < 0) return -1;
+    if ((size_t) r < cpusetsize) memset((char *) mask + r, 0, cpusetsize - r);
+    return 0;
+}
+"""
+
+SHIM_SCRIPT = r"""
+import errno, json, os, sys
+import psutil
+pid = int(sys.argv[1])
+def poison():
+    try: os.stat("/nonexistent-psv-c18/x")
+    except OSError: pass
+def canon(f):
+    try:
+        poison()
+        r = f()
+        if type(r) is not list or any(type(x) is not int for x in r):
+            return {"kind": "ok", "value": {"unexpected": repr(r)}}
+        return {"kind": "ok", "value": r}
+    except BaseException as e:
+        d = {"kind": "exc", "exc": type(e).__name__}
+        if isinstance(e, psutil.Error): d["pid"] = getattr(e, "pid", None)
+        elif type(e) is OSError: d["errno"] = errno.errorcode.get(e.errno, str(e.errno))
+        return d
+p = psutil.Process(pid)
+out = [canon(p.cpu_affinity)]
+def in_block():
+    with p.oneshot():
+        p.num_threads(); return p.cpu_affinity()
+out.append(canon(in_block))
+print(json.dumps({"file": psutil.__file__, "out": out}))
+"""
+
+
+def live_shim(ctx, res, live, env, T, S):
+    import shutil
+    import tempfile
+    cc = shutil.which("gcc") or shutil.which("cc")
+    if cc is None:
+        res.notes.append("live-shim skipped: no C compiler for the sched_getaffinity shim")
+        return 0
+    tmp = tempfile.mkdtemp(prefix="psv-c18-shim-")
+    done = 0
+    try:
+        with open(os.path.join(tmp, "shim.c"), "w") as f:
+            f.write(SHIM_C)
+        so = os.path.join(tmp, "shim.so")
+        r = subprocess.run([cc, "-shared", "-fPIC", "-O1", "-o", so, os.path.join(tmp, "shim.c")], capture_output=True,
+                           text=True, timeout=120)
+        if r.returncode != 0:
+            res.notes.append("live-shim skipped: compiling the shim failed (%s)" % r.stderr.strip()[:200])
+            return 0
+        with open(os.path.join(tmp, "script.py"), "w") as f:
+            f.write(SHIM_SCRIPT)
+        E = env["eligible"]
+        os.sched_setaffinity(T, E[:1] + E[-1:])
+        for nr in (64, 65, 128, 129, 200, 512, 1000, 1024):
+            log = os.path.join(tmp, "log-%d" % nr)
+            st0 = [live.os_state(T, E), live.os_state(S, E)]
+            world = {"self": os.getpid(), "ncpu": max(nr, env["ncpu"]), "stat_cpus": env["ncpu"], "nr_open": env["nr_open"],
+                     "cap": env["cap"], "procs": st0}
+            ops = [dict(op(T, R_aff()), mode="plain"), dict(op(T, R_aff()), mode="oneshot-warm")]
+            hist = {"world": world, "ops": ops, "mode": "live", "tag": "live-shim"}
+            lines = [dict(world, op="reset")] + [{"op": "call", "pid": T, "req": driver_req(o["req"]), "errno": POISON_ERRNO}
+                                                 for o in ops]
+            outs = ctx.driver().batch(lines)[1:]
+            envp = dict(os.environ, LD_PRELOAD=so, C18_FAKE_NR_CPU_IDS=str(nr), C18_SHIM_LOG=log, PYTHONPATH=ctx.snap.dir)
+            try:
+                pr = subprocess.run([sys.executable, os.path.join(tmp, "script.py"), str(T)], capture_output=True, text=True,
+                                    timeout=20, env=envp, cwd=tmp)
+                if pr.returncode != 0 or not pr.stdout.strip():
+                    raise RuntimeError("shim interpreter failed: rc=%s %s" % (pr.returncode, pr.stderr.strip()[-300:]))
+                got = json.loads(pr.stdout.strip().splitlines()[-1])
+                if not os.path.abspath(got["file"]).startswith(os.path.abspath(ctx.snap.dir)):
+                    raise RuntimeError("shim interpreter imported psutil from %s" % got["file"])
+                impl_outs = got["out"]
+            except subprocess.TimeoutExpired:
+                impl_outs = [{"kind": "hang"}, {"kind": "hang"}]
+            sizes = []
+            if os.path.exists(log):
+                with open(log) as f:
+                    sizes = [int(x) for x in f.read().split()]
+            rounds = sum(1 for x in sizes if x * 8 < nr)
+            res.count("live:shim:nr_cpu_ids=%d:EINVAL-rounds-per-call=%d" % (nr, rounds // 2 if rounds else 0))
+            if rounds:
+                res.count("live:shim:sched_getaffinity-refused-with-EINVAL(growth branch of the sizing loop ran)")
+            for i, (o, m, out) in enumerate(zip(ops, outs, impl_outs)):
+                if "bad" in m:
+                    raise RuntimeError("driver rejected %r: %s" % (o, m))
+                im = {"out": out, "procs": [live.os_state(T, E), live.os_state(S, E)]}
+                res.count("family:live-shim")
+                res.count("live:cpu_affinity")
+                res.case(("live-shim", nr, i), nontrivial=False)
+                done += 1
+                if not judge(ctx, res, hist, i, im, m, live=True):
+                    return done
+    finally:
+        shutil.rmtree(tmp, ignore_errors=True)
+    return done
+
+
 def check_live(ctx, res):
     live = Live(ctx)
     if not live.ok:
@@ -1968,6 +2264,12 @@ def check_live(ctx, res):
                 zops = [dict(o, mode=ctx.rng.choice(["plain", "oneshot", "oneshot-warm", "second", "iter"])) for o in zops]
                 n, ok = run_live(ctx, res, live, env, Z, S, zops, "live-zombie", block=False)
                 done += n
+        if ok:
+            # round 3: an unprivileged caller (EPERM / EACCES reach the caller, nothing changes), and a kernel whose
+            # affinity mask is longer than the first one the native getter tries (the sizing loop's growth branch)
+            U = live.spawn()
+            done += live_unpriv(ctx, res, live, env, U)
+            done += live_shim(ctx, res, live, env, U, S)
         if ok and len(env["eligible"]) >= 3 and env["eligible"][-1] == env["ncpu"] - 1:
             # the same child seen through a procfs whose /proc/stat lacks the cpuN line of a CPU that is not the last
             # one (seeded C18-2): len(per_cpu_times()) = ncpu - 1 while CPU ids go up to ncpu - 1
